@@ -26,17 +26,22 @@ ASSUMPTIONS = ["addresses in a file are distinct (what save_to_file produces)",
 
 def deps_of(ref, i):
     fp = ref.flat[i]
-    return ([fp.sel] if fp.sel is not None else []) + list(fp.hard) + list(fp.soft)
+    return ([fp.sel] if fp.sel is not None else []) + list(fp.hard) + list(fp.soft) + list(getattr(fp, "rdeps", []))
 
 def gen(rng, tier, dist):
     n = 300 if tier == "quick" else 4000
-    out = []
+    out = list(sc.macro_cases())
+    dist["macro-made metadata blocks"] = len(out)
     for c in range(n):
-        opts = {"p_soft": 0.6 if rng.random() < 0.5 else 0.0, "p_sel": 0.8, "p_ptr": 0.7}
-        app = sc.gen_app(rng, opts)
+        static = c % 5 == 4
+        opts = {"p_soft": 0.6 if rng.random() < 0.5 else 0.0, "p_sel": 0.8, "p_ptr": 0.7,
+                "p_rdep": 0.7, "p_nodef": 0.03}
+        app = sc.static_app() if static else sc.gen_app(rng, opts)
         ref = sc.Ref(app)
         if not ref.flat:
             continue
+        if static:
+            dist["macro-made application"] = dist.get("macro-made application", 0) + 1
         tree, flat, apro = app.tree(), sc.flat_text(ref.flat), sc.apro_text(app, ref.flat, ref.dirs)
         nops = rng.choice([3, 4, 5, 6, 8, 12])
         ops, mops = sc.gen_ops(rng, ref, nops)
@@ -124,6 +129,8 @@ def parse_out(line):
     return int(m.group(1)), groups
 
 def spec_check(case, impl):
+    if case.startswith("macro "):
+        return sc.macro_check(case, impl)
     if impl.startswith("CRASH") or impl == "NOOUT" or impl.startswith("BADCASE"):
         return "crash: " + impl[:300]
     f = case.split(" ")
@@ -158,6 +165,8 @@ def spec_check(case, impl):
 
 def nontrivial(case, impl):
     f = case.split(" ")
+    if f[0] == "macro":
+        return True
     if f[8] == "-" or int(f[7]) < 2:
         return False
     r = parse_out(impl)
